@@ -120,6 +120,52 @@ theorem det_condSwap (n : ℕ) (rows : Mat F) (k pr : ℕ) (hn : rows.length = n
   · have hne : (⟨k, hk⟩ : Fin n) ≠ ⟨pr, hpr⟩ := fun e => h (Fin.mk.inj e).symm
     rw [Equiv.Perm.sign_swap hne]; simp
 
+omit [DecidableEq F] in
+theorem det_swapRows (n : ℕ) (rows : Mat F) (k pr : ℕ) (hn : rows.length = n) (hk : k < n)
+    (hpr : pr < n) :
+    (toMatrix n (swapRows rows k pr)).det = (if pr = k then 1 else -1) * (toMatrix n rows).det := by
+  have hM : toMatrix n (swapRows rows k pr) =
+      (toMatrix n rows).submatrix (Equiv.swap (⟨k, hk⟩ : Fin n) ⟨pr, hpr⟩) id := by
+    ext i j
+    simp only [toMatrix, Matrix.submatrix_apply, id, entry]
+    rw [getD_swapRows rows k pr i.1 (hn ▸ hk) (hn ▸ hpr), ← sw_eq_swap]
+  rw [hM, Matrix.det_permute]
+  split_ifs with h
+  · subst h; simp
+  · have hne : (⟨k, hk⟩ : Fin n) ≠ ⟨pr, hpr⟩ := fun e => h (Fin.mk.inj e).symm
+    rw [Equiv.Perm.sign_swap hne]; simp
+
+/-- the pivot step multiplies the determinant of the leading `n × n` block by `± a⁻¹` -/
+theorem det_pivotStep (n : ℕ) (rows : Mat F) (k pr pc w : ℕ) (hn : rows.length = n) (hk : k < n)
+    (hpr : pr < n) (hW : ∀ r ∈ rows, r.length = w) :
+    (toMatrix n (pivotStep rows k pr pc)).det =
+      (entry rows pr pc)⁻¹ * ((if pr = k then 1 else -1) * (toMatrix n rows).det) := by
+  have hk' : k < rows.length := hn ▸ hk
+  have hpr' : pr < rows.length := hn ▸ hpr
+  rw [← det_swapRows n rows k pr hn hk hpr]
+  set M1 := toMatrix n (swapRows rows k pr) with hM1
+  have hM1e : ∀ i j : Fin n, M1 i j = entry rows (sw k pr i.1) j.1 := fun i j => by
+    simp only [hM1, toMatrix, entry]; rw [getD_swapRows rows k pr i.1 hk' hpr']
+  -- scale row k
+  have h2 : (Matrix.updateRow M1 ⟨k, hk⟩ ((entry rows pr pc)⁻¹ • M1 ⟨k, hk⟩)).det =
+      (entry rows pr pc)⁻¹ * M1.det := by
+    rw [Matrix.det_updateRow_smul, Matrix.updateRow_eq_self]
+  rw [← h2]
+  refine Matrix.det_eq_of_forall_row_eq_smul_add_const
+    (fun i : Fin n => if i.1 = k then 0 else - entry rows (sw k pr i.1) pc) ⟨k, hk⟩ (by simp) ?_
+  intro i j
+  have hswk : sw k pr k = pr := by simp [sw]
+  simp only [toMatrix]
+  rw [entry_pivotStep rows k pr pc i.1 j.1 w hk' hpr' (hn ▸ i.2) hW]
+  by_cases hik : i.1 = k
+  · have : i = ⟨k, hk⟩ := Fin.ext hik
+    subst this
+    simp [Matrix.updateRow_self, hM1e, hswk, mul_comm]
+  · have hne : i ≠ ⟨k, hk⟩ := fun e => hik (congrArg Fin.val e)
+    simp only [if_neg hik, Matrix.updateRow_ne hne, Matrix.updateRow_self, Pi.smul_apply,
+      smul_eq_mul, hM1e, hswk]
+    ring
+
 /-! ## the loop invariant -/
 
 /-- invariant of `Determinant`'s loop after `k` diagonal positions -/
